@@ -123,4 +123,24 @@ for prop, (title, intro, items, ns) in STATESPECS.items():
         L.append(doc + "theorem %s%s:%s:=\n  %s.%s %s\n" % (newname, pre, stmt.rstrip() + " ", q, name, " ".join(args_of(binders))))
     L.append("end Ebu.Props.%s" % prop)
     open(os.path.join(LEAN, "Ebu", "Props", prop + ".lean"), "w").write("\n".join(L) + "\n")
-print("generated", list(SPECS) + list(LOGSPECS) + list(STATESPECS))
+def simple(prop, title, intro, path, ns, opens, imports, names):
+    if ONLY and prop not in ONLY: return
+    gen(prop, title, intro, [(path, n, n) for n in names], os.path.join(LEAN, "Ebu", "Props", prop + ".lean"), imports, ns=ns, opens=opens)
+
+simple("C14", "What the SQLite store acknowledged survives reopening and a killed process",
+       "Model: M10 (`Ebu/Model/Durable.lean`). The theorems quantify over every sequence of appends, offset saves, kills (between or during operations, the in-flight statement committed or not), clean closes and reopenings; they rest on the assumptions stated at the top of the model file (statement atomicity, durability of committed statements across process death, AUTOINCREMENT), which the kill harness samples.",
+       "Ebu/Proofs/Durable.lean", "Ebu.Durable", "Ebu.Durable", ["Ebu.Model.Durable", "Ebu.Proofs.Durable"],
+       ["log_gap_free", "acked_survive", "saved_offset_survives", "new_offsets_larger", "open_idempotent"])
+simple("C12", "A resumable subscription sees each event of its type once across restarts",
+       "Model: M5 (`Ebu/Model/Resume.lean`) over a store that is an append-only log with resumable offsets (what C10 proves of the memory and SQLite stores). Known findings: events published while SubscribeWithReplay runs are lost (witness theorem `publish_during_replay_lost`); on the durable-streams store resumption inherits the C10 finding.",
+       "Ebu/Proofs/Resume.lean", "Ebu.Resume", "Ebu.Resume", ["Ebu.Spec.Resume", "Ebu.Proofs.Resume"],
+       ["resume_exactly_once", "resume_at_least_once", "saved_offset_monotone_of_freshSubs", "saved_offset_monotone_counterexample", "saved_within_log", "ids_independent", "publish_during_replay_lost"])
+C = "Ebu/Proofs/Conc.lean"
+for prop, title, names in [
+    ("C02", "Subscribe, unsubscribe and publish stay consistent under every interleaving", ["registry_accounting", "publish_takes_current_registry", "dispatch_within_snapshot", "once_at_most_once", "seq_mutex"]),
+    ("C04", "A Once handler fires at most once, and exactly once when eligible", ["once_at_most_once", "once_entered_was_claimed", "filter_reject_not_consumed", "cancelled_not_consumed"]),
+    ("C06", "Wait and Shutdown return only after all asynchronous work has finished", ["inflight_counts", "wait_returns_only_when_idle"]),
+    ("C07", "Sequential handlers never overlap and process events in publish order", ["seq_mutex", "tickets_in_dispatch_order", "turns_in_ticket_order"])]:
+    simple(prop, title, "Model: M2 (`Ebu/Model/Conc.lean`), the interleaving model: `Reachable progs s` ranges over every program, any number of threads and every schedule at yield-point granularity.",
+           C, "Ebu.Conc", "Ebu.Conc", ["Ebu.Spec.Conc", "Ebu.Proofs.Conc"], names)
+print("generated", list(SPECS) + list(LOGSPECS) + list(STATESPECS) + ["C14", "C12", "C02", "C04", "C06", "C07"])
